@@ -1919,6 +1919,13 @@ func (c *ChannelArbitrator) checkCommitChainActions(height uint32,
 	}
 
 	for _, htlc := range htlcs.incomingHTLCs {
+		// A dust HTLC has no output on the commitment transaction, so
+		// there is nothing we could claim on-chain with the pre-image.
+		// It is no reason to go to chain.
+		if htlc.OutputIndex < 0 {
+			continue
+		}
+
 		// We'll need to go on-chain to pull an incoming HTLC iff we
 		// know the pre-image and it's close to timing out. We need to
 		// ensure that we claim the funds that are rightfully ours
